@@ -668,6 +668,133 @@ theorem matchList_fo_sound (bf fuel : Nat) (pats ts : List Term) (inst inst' : M
     ∀ pt ∈ pats.zip ts, Instantiates inst' pt.1 pt.2 :=
   matchList_fo_sound_aux bf fuel pats ts inst inst' hfo h inst' (Ext.refl _)
 
+/-! ### first-order fragment: the result is well-typed (what fix C09-1 establishes) -/
+
+/-- every schematic variable of the pattern is used at its declared type `D` -/
+def PatIn (D : List (String × Ty)) : Term → Prop
+  | .svar n T => D.lookup n = some T
+  | .comb f a => PatIn D f ∧ PatIn D a
+  | .abs _ _ b => PatIn D b
+  | _ => True
+
+/-- every declared schematic variable that is bound carries a term whose type is the declared type
+under the type instantiation (and under every extension of it: the type is settled). -/
+def TypedBy (D : List (String × Ty)) (i : MInst) : Prop :=
+  ∀ n T s, D.lookup n = some T → i.svars.lookup n = some s →
+    ∃ U, Term.getType [] s = .ok U ∧ ∀ τ, ExtL i.tyinst τ → T.subst τ = U
+
+def RecFOTyped (D : List (String × Ty)) (k : Rec) : Prop :=
+  ∀ bd i p t i', isFO p = true → PatIn D p → TypedBy D i → k bd i p t = .ok i' →
+    TypedBy D i' ∧ ∀ j, Ext i' j → TypedBy D j → SigmaOK j p
+
+theorem TypedBy.mono_ty {D : List (String × Ty)} {i i' : MInst} (h : TypedBy D i) (hty : ExtL i.tyinst i'.tyinst)
+    (hsv : i'.svars = i.svars) : TypedBy D i' := by
+  intro n T s hD hl
+  rw [hsv] at hl
+  obtain ⟨U, hU, hτ⟩ := h n T s hD hl
+  exact ⟨U, hU, fun τ hτ' => hτ τ (hty.trans hτ')⟩
+
+theorem liftT_ok {α : Type} {x : Except TErr α} {a : α} (h : liftT x = .ok a) : x = .ok a := by
+  cases x with
+  | ok b => simpa [liftT] using h
+  | error e => cases e <;> simp [liftT] at h
+
+theorem matchSvar_typed {D : List (String × Ty)} {bd : List Term} {inst inst' : MInst} {n : String} {T : Ty}
+    {t : Term} (hD : D.lookup n = some T) (ht : TypedBy D inst) (h : matchSvar bd inst n T t = .ok inst') :
+    TypedBy D inst' ∧ ∀ j, Ext inst' j → TypedBy D j → SigmaOK j (.svar n T) := by
+  have hext := matchSvar_ext h
+  simp only [matchSvar] at h
+  split at h
+  · next hl =>
+    split at h
+    · simp at h
+    · obtain ⟨tT, htT, h⟩ := bind_ok h
+      obtain ⟨i1, h1, h⟩ := bind_ok h
+      simp only [Except.ok.injEq] at h; subst h
+      obtain ⟨he1, hsv, _, hsub⟩ := bindTy_spec h1
+      have ht1 : TypedBy D i1 := ht.mono_ty he1.ty hsv
+      have hl' : (i1.addSvar n t).svars.lookup n = some t := by
+        simp only [MInst.addSvar, hsv]; exact lookup_append_new _ n t hl
+      refine ⟨?_, fun j hj htj => ?_⟩
+      · intro m T' s hDm hm
+        simp only [MInst.addSvar] at hm
+        cases hm0 : i1.svars.lookup m with
+        | some x0 =>
+          rw [lookup_append_some _ _ m x0 hm0] at hm
+          simp only [Option.some.injEq] at hm; subst hm
+          exact ht1 m T' x0 hDm hm0
+        | none =>
+          rw [lookup_append_none _ _ m hm0] at hm
+          simp only [List.lookup_cons, List.lookup_nil] at hm
+          cases hmn : m == n with
+          | true =>
+            rw [hmn] at hm
+            simp only [Option.some.injEq] at hm; subst hm
+            have : m = n := by simpa using hmn
+            subst this
+            rw [hD] at hDm; simp only [Option.some.injEq] at hDm; subst hDm
+            exact ⟨tT, liftT_ok htT, fun τ hτ => hsub τ hτ⟩
+          | false => rw [hmn] at hm; simp at hm
+      · have hjl := hj.sv n t hl'
+        obtain ⟨U, hU, hτ⟩ := htj n T t hD hjl
+        exact ⟨t, hjl, by rw [hU, hτ j.tyinst (ExtL.refl _)]⟩
+  · next s hl =>
+    split at h
+    · simp only [Except.ok.injEq] at h; subst h
+      refine ⟨ht, fun j hj htj => ?_⟩
+      have hjl := hj.sv n s hl
+      obtain ⟨U, hU, hτ⟩ := htj n T s hD hjl
+      exact ⟨s, hjl, by rw [hU, hτ j.tyinst (ExtL.refl _)]⟩
+    · simp at h
+
+theorem matchAtom_typed {D : List (String × Ty)} {inst inst' : MInst} {pat t : Term}
+    (ht : TypedBy D inst) (h : matchAtom inst pat t = .ok inst') : TypedBy D inst' := by
+  unfold matchAtom at h
+  split at h
+  · split at h
+    · obtain ⟨he, hsv, _, _⟩ := bindTy_spec h; exact ht.mono_ty he.ty hsv
+    · simp at h
+  · split at h
+    · obtain ⟨he, hsv, _, _⟩ := bindTy_spec h; exact ht.mono_ty he.ty hsv
+    · simp at h
+  · simp at h
+
+theorem combCase_typed {D : List (String × Ty)} {k : Rec} (hk : RecFOTyped D k) (hke : RecExt k) {bd : List Term}
+    {inst inst' : MInst} {f a t : Term} (hf : isFO f = true) (ha : isFO a = true) (hDf : PatIn D f)
+    (hDa : PatIn D a) (ht : TypedBy D inst) (h : combCase k bd inst f a t = .ok inst') :
+    TypedBy D inst' ∧ ∀ j, Ext inst' j → TypedBy D j → SigmaOK j (.comb f a) := by
+  unfold combCase at h
+  split at h
+  · split at h
+    · obtain ⟨i1, h1, h⟩ := bind_ok h
+      obtain ⟨t1, s1⟩ := hk _ _ _ _ _ hf hDf ht h1
+      obtain ⟨t2, s2⟩ := hk _ _ _ _ _ ha hDa t1 h
+      exact ⟨t2, fun j hj htj => ⟨s1 j ((hke _ _ _ _ _ h).trans hj) htj, s2 j hj htj⟩⟩
+    · obtain ⟨i1, h1, h⟩ := bind_ok h
+      obtain ⟨t1, s1⟩ := hk _ _ _ _ _ ha hDa ht h1
+      obtain ⟨t2, s2⟩ := hk _ _ _ _ _ hf hDf t1 h
+      exact ⟨t2, fun j hj htj => ⟨s2 j hj htj, s1 j ((hke _ _ _ _ _ h).trans hj) htj⟩⟩
+  · simp at h
+
+theorem matchAux_fo_typed (D : List (String × Ty)) (bf : Nat) : ∀ fuel, RecFOTyped D (matchAux bf fuel) := by
+  intro fuel
+  induction fuel with
+  | zero => intro bd i p t i' _ _ _ h; simp [matchAux] at h
+  | succ fuel ih =>
+    intro bd i p t i' hp hD ht h
+    cases p with
+    | svar n T => exact matchSvar_typed hD ht (by simpa only [matchAux] using h)
+    | var n T => exact ⟨matchAtom_typed ht (by simpa only [matchAux] using h), fun _ _ _ => trivial⟩
+    | const n T => exact ⟨matchAtom_typed ht (by simpa only [matchAux] using h), fun _ _ _ => trivial⟩
+    | bound j => simp [isFO] at hp
+    | abs x T body => simp [isFO] at hp
+    | comb f a =>
+      simp only [isFO, Bool.and_eq_true, Bool.not_eq_true'] at hp
+      simp only [matchAux] at h
+      split at h
+      · next hn hT hh => exact absurd hh (isFO_head f hp.1.2 hp.1.1 hn hT)
+      · exact combCase_typed ih (matchAux_ext bf fuel) hp.1.2 hp.2 hD.1 hD.2 ht h
+
 /-- Evaluate the model on concrete inputs by rewriting (`Ty.subst` of the shared kernel model is
 defined by well-founded recursion, so `rfl`/`decide` get stuck on it under binders). -/
 macro "model_simp" : tactic => `(tactic|
